@@ -53,6 +53,11 @@ CLAIMED = {
    note="Trusted: Coq kernel; translator; harness; CPython dict get/set atomicity; no derivative or generator object shared between threads (the property's restriction). Real OS scheduling is not what the schedule theorem quantifies over (it quantifies over interleavings of the modelled atomic steps); the thread run is supporting evidence.",
    technique="Coq proof (invariant over fold of operations; interleaving semantics) + translator structural check + bit-for-bit comparison with a fresh interpreter",
    design="4/C09"),
+ 'C08': dict(
+   text="Machine-checked proof (Coq 8.16.1, ANY arithmetic hence binary64, no axioms) about the executable model of Derivative on arrays (rule application, Richardson, dea3, outlier penalty, arg-min with the tie rule, gather; one column of the steps x elements matrices per element): one result per element; the result for element c is a function of column c alone, so replacing the other elements leaves it bit-identical, and equals the one-element call; extra arguments are forwarded unchanged (AST fact from the translator). The binary64 instance is compared bit-for-bit, element by element (value, error estimate, final step, index), with Derivative on arrays of 0..3 axes and up to 40 elements for all five methods each run; the property itself (replace other elements / evaluate alone / NaN element / extra arguments) is also run on the implementation.",
+   note="Trusted: Coq kernel + vm_compute + primitive floats; harness; difference quotients, pinv rows and h**n recorded from the run (stencils: C05/C06). The theorems are structural (the model is columnwise by construction); the substance is the bit-exact tie showing the implementation's matrix code behaves as that model. Columns with NaN/inf quotients are outside the model comparison and covered by the property-level run only.",
+   technique="Coq proof (structural, any Ops) + bit-exact vm_compute correspondence per element + property-level replay on the implementation",
+   design="4/C08"),
 }
 REASON_TODO = "not claimed yet: the Coq model, theorems and correspondence for this property are still being built (see DESIGN.md section 8 for the order)"
 def main():
